@@ -32,8 +32,14 @@ GEOMS = {
         dict(bs=16384, W=4, cut=512, boff=512, doff=None),
         dict(bs=512, W=4, cut=0, boff=512, doff=None),
         dict(bs=1 << 20, W=3, cut=4096 + 512, boff=512, doff=2 << 20, big=True),
+        # windows deep inside the block map (index thresholds such as 1024 / 4096 are typical chunk and cache sizes)
+        dict(bs=4096, W=3, cut=512, boff=512, doff=None, at=1022),
+        dict(bs=512, W=3, cut=0, boff=1024, doff=None, at=4094),
     ],
     "thorough": [
+        dict(bs=4096, W=4, cut=512, boff=512, doff=None, at=1021),
+        dict(bs=4096, W=4, cut=0, boff=512, doff=None, at=4093),
+        dict(bs=1024, W=4, cut=0, boff=512, doff=None, at=65533),
         dict(bs=4096, W=5, cut=0, boff=512, doff=None),
         dict(bs=4096, W=5, cut=1536, boff=1024, doff=8192),
         dict(bs=8192, W=5, cut=512, boff=512, doff=None),
@@ -60,7 +66,8 @@ def shards(tier):
 
 def _requests(g, size, buf):
     bs = g["bs"]
-    pts = boundaries(size, bs, buf)
+    at = g.get("at", 0)
+    pts = boundaries(size, bs, buf, max(0, (at - 1) * bs), size) if at else boundaries(size, bs, buf)
     if g.get("big"):
         # cost follows bytes returned: all short requests (<= 1 block + 2 sectors) plus a few whole/multi-block ones
         reqs = request_pairs(pts, 2 * buf + 1024)
@@ -82,7 +89,9 @@ def run_case(case, ctx):
     from dissect.hypervisor.disk.vdi import VDI
 
     g = case["geom"]
-    states, slots = case["states"], case["slots"]
+    at = g.get("at", 0)
+    states = [HOLE] * at + list(case["states"])
+    slots = [None] * at + list(case["slots"])
     bs = g["bs"]
     size = len(states) * bs - g["cut"]
     buf = bootstrap.bufsize()
